@@ -182,7 +182,11 @@ func (c *Ctx) Violate(key, what string, files map[string]string) {
 		c.violations = append(c.violations, Violation{Key: key, What: what})
 		return
 	}
-	dir := filepath.Join(c.Verif, "replay", c.ID, sanitize(key))
+	root := filepath.Join(c.Verif, "replay")
+	if d := os.Getenv("VERIF_REPLAY_DIR"); d != "" {
+		root = d
+	}
+	dir := filepath.Join(root, c.ID, sanitize(key))
 	os.RemoveAll(dir)
 	os.MkdirAll(dir, 0o755)
 	os.WriteFile(filepath.Join(dir, "WHAT.txt"), []byte(what+"\nseed="+strconv.FormatInt(c.Seed, 10)+" tier="+c.Tier+"\n"), 0o644)
